@@ -98,6 +98,7 @@ def make_tree(mut, base):
 def mutants(args):
     want = set(args.arg.split(',')) if args.arg else None
     res = []
+    detail = {}
     for mut in load_mutants():
         if want and mut['id'] not in want:
             continue
@@ -130,6 +131,11 @@ def mutants(args):
         print('%s %-7s %s (%.0fs) %s' % ('CAUGHT' if ok else 'MISSED', mut['id'], mut['what'], time.time() - t0,
                                         caught_by if ok else ''))
         res.append((mut['id'], ok))
+        detail[mut['id']] = {'what': mut['what'], 'files': sorted(set(e['file'] for e in mut['edits'])), 'caught': bool(ok),
+                             'clauses': sorted(set(c.split()[0].replace('clause=', '') for _, cl in caught_by for c in cl if c.startswith('clause=')))}
+    if not want:
+        with open(os.path.join(VERIF, 'mutants', 'last_run.json'), 'w') as f:
+            json.dump(detail, f, indent=1, sort_keys=True)
     missed = [m for m, ok in res if ok is False]
     print('mutants: %d caught, %d missed %s' % (len([1 for m, ok in res if ok is True]), len(missed), missed))
     return 1 if missed else 0
